@@ -69,6 +69,8 @@ type worldCfg struct {
 	Cpc         bool // deploy custom precompiles
 	MaxGasSmall bool // allow small block gas limits
 	OnlyEvmCoin bool
+	PoolEOAFrom int // first EOA key index that may appear as an address operand (senders below it stay out of the pool)
+	Senders     int // number of sender keys (default nEOA)
 }
 
 // genEvmWorld generates a world with funded EOAs and 2..6 soup contracts.
@@ -103,7 +105,7 @@ func genEvmWorld(t *rapid.T, cfg worldCfg) chain.World {
 		targets = append(targets, poolAddr(i))
 	}
 	addrs = append(addrs, targets...)
-	for i := 0; i < nEOA; i++ {
+	for i := cfg.PoolEOAFrom; i < nEOA; i++ {
 		addrs = append(addrs, chain.K(i).Addr.Hex())
 	}
 	addrs = append(addrs, zeroAddr, deadAddr, "0x0000000000000000000000000000000000000001", "0x0000000000000000000000000000000000000004", "0x0000000000000000000000000000000000000009", "0x000000000000000000000000000000000000000a")
@@ -136,7 +138,7 @@ func worldGenCfg(w chain.World, cfg worldCfg) evmgen.GenCfg {
 		targets = append(targets, c.Addr)
 	}
 	addrs = append(addrs, targets...)
-	for i := 0; i < nEOA; i++ {
+	for i := cfg.PoolEOAFrom; i < nEOA; i++ {
 		addrs = append(addrs, chain.K(i).Addr.Hex())
 	}
 	addrs = append(addrs, zeroAddr, deadAddr)
@@ -145,7 +147,11 @@ func worldGenCfg(w chain.World, cfg worldCfg) evmgen.GenCfg {
 
 // genEthPlan generates an Ethereum tx plan against a world.
 func genEthPlan(t *rapid.T, w chain.World, cfg worldCfg, allowInvalid bool) TxPlan {
-	p := TxPlan{Kind: "eth", From: rapid.IntRange(0, nEOA-1).Draw(t, "from"), Type: rapid.IntRange(0, 2).Draw(t, "txtype")}
+	ns := cfg.Senders
+	if ns <= 0 {
+		ns = nEOA
+	}
+	p := TxPlan{Kind: "eth", From: rapid.IntRange(0, ns-1).Draw(t, "from"), Type: rapid.IntRange(0, 2).Draw(t, "txtype")}
 	gc := worldGenCfg(w, cfg)
 	// destination
 	switch rapid.IntRange(0, 9).Draw(t, "destk") {
@@ -153,7 +159,7 @@ func genEthPlan(t *rapid.T, w chain.World, cfg worldCfg, allowInvalid bool) TxPl
 		p.To = ""
 		p.Data = evmgen.GenInit(t, gc)
 	case 1: // EOA / misc
-		p.To = rapid.SampledFrom([]string{chain.K(0).Addr.Hex(), chain.K(2).Addr.Hex(), deadAddr, zeroAddr, "0x0000000000000000000000000000000000000002"}).Draw(t, "toeoa")
+		p.To = rapid.SampledFrom([]string{chain.K(3).Addr.Hex(), chain.K(2).Addr.Hex(), deadAddr, zeroAddr, "0x0000000000000000000000000000000000000002"}).Draw(t, "toeoa")
 	default:
 		p.To = w.Contracts[rapid.IntRange(0, len(w.Contracts)-1).Draw(t, "tocontract")].Addr
 		if rapid.Bool().Draw(t, "hascd") {
